@@ -262,6 +262,7 @@ class Sim(object):
         self.reactor = None
         self._pending = []
         self._pending_regions = []
+        self.gap_range = None
         self._in_flush = False
         self._saved = []
         self.record_state = record_state
@@ -478,6 +479,15 @@ class Sim(object):
             sim.klog.setdefault(id(reg), []).append(
                 float(reg.duct.thermal_conductivity))
 
+        orig_core_min_dz = _core_mod.calculate_min_dz
+
+        def core_min_dz(core_obj, temp_lo, temp_hi):
+            # observation only: the temperature range the gap limit is
+            # evaluated for
+            sim.gap_range = (float(temp_lo), float(temp_hi))
+            return orig_core_min_dz(core_obj, temp_lo, temp_hi)
+
+        self._patch(_core_mod, 'calculate_min_dz', core_min_dz)
         self._patch(DR, '_update_duct', update_duct)
         self._patch(R, '_setup_zpts', setup_zpts)
         self._patch(R, '_calculate_asm_temperatures', calc_asm)
